@@ -101,8 +101,14 @@ pub fn check_model<T: Sc>(rng: &mut Rng, spec: &CodedSpec, nalpha: usize) -> (u6
 
 fn case(rng: &mut Rng, case: u64, out: &mut CaseOut) {
     let stream = "routing";
-    let spec = random_coded(rng, 10, 9);
-    let r = if case % 3 == 0 { check_model::<f32>(rng, &spec, 5) } else { check_model::<f64>(rng, &spec, 5) };
+    // every 40th model is a wide one (11..257 model parameters)
+    let wide = case % 40 == 39;
+    let spec = if wide { random_coded_wide(rng, 3) } else { random_coded(rng, 10, 9) };
+    let nalpha = if wide { 1 } else { 5 };
+    if wide {
+        out.count("wide_models");
+    }
+    let r = if case % 3 == 0 { check_model::<f32>(rng, &spec, nalpha) } else { check_model::<f64>(rng, &spec, nalpha) };
     out.evals += r.0;
     out.seen("model_parameter_count", format!("{}", spec.names.len()));
     for f in &spec.funcs {
@@ -135,7 +141,7 @@ pub fn sanitizer_workload(seed: u64, cases: u64, nmax: usize, _len: usize) -> (u
 }
 
 pub fn run(ctx: &Ctx) {
-    ctx.rule("generated builder specifications: model parameter lists of length 1..10 in random order, 1..5 functions of arity 1..10 over random ordered subsets (the last one covering unused parameters), derivatives supplied in random order, up to two invariant functions at random positions, N in 1..9, f32/f64, 4 parameter vectors with pairwise distinct entries per model. Functions and derivatives are asymmetric position codes (sum_i (i+2)·sin((i+1)·a_i + x + j)); the oracle calls the same code with the arguments it routes by name and compares bitwise; columns of functions not depending on parameter k must be exactly zero; params() must return what was set. non-trivial = at least two model parameters and a function of arity >= 2; distinct = specification hash");
+    ctx.rule("generated builder specifications: model parameter lists of length 1..10 in random order, 1..5 functions of arity 1..10 over random ordered subsets (the last one covering unused parameters), derivatives supplied in random order, up to two invariant functions at random positions, N in 1..9, f32/f64, 4 parameter vectors with pairwise distinct entries per model; every 40th model is wide: 11..257 model parameters (sizes around 32/64/128/256), each used by at least one function of arity 1..10, some shared. Functions and derivatives are asymmetric position codes (sum_i (i+2)·sin((i+1)·a_i + x + j)); the oracle calls the same code with the arguments it routes by name and compares bitwise; columns of functions not depending on parameter k must be exactly zero; params() must return what was set. non-trivial = at least two model parameters and a function of arity >= 2; distinct = specification hash");
     ctx.assume("bitwise comparison is sound: the same closure evaluated on the same arguments on the same machine");
     let t = ctx.tier;
     ctx.run_cases("routing", t.pick(30000, 600000), t.pick(15.0, 900.0), case);
